@@ -1,0 +1,10 @@
+// SPDX-FileCopyrightText: 2014-2024 caixw
+//
+// SPDX-License-Identifier: MIT
+
+//go:build verif
+
+package syntax
+
+// VerifRules 仅用于验证：返回已注册的拦截器。
+func (i *Interceptors) VerifRules() map[string]InterceptorFunc { return i.funcs }
